@@ -25,6 +25,9 @@ class MetaRunner(object):
         self._runners: Dict[ModuleType, BaseRunner] = {}
         # queue to store payloads submitted before the runner is started
         self._runner_queues: Dict[ModuleType, Any] = {}
+        # guards the decision whether a payload is queued or handed to a runner
+        # against the runners being launched and the queue being flushed
+        self._queue_lock = threading.Lock()
         self.running = threading.Event()
 
     @property
@@ -40,18 +43,18 @@ class MetaRunner(object):
 
     def register_payload(self, *payloads, flavour: ModuleType):
         """Queue one or more payloads for execution after its runner is started"""
-        try:
-            runner = self._runners[flavour]
-        except KeyError:
-            if self.running.is_set():
-                raise RuntimeError(f"unknown runner {NameRepr(flavour)}") from None
-            self._runner_queues.setdefault(flavour, []).extend(payloads)
-        else:
-            for payload in payloads:
-                self._logger.debug(
-                    "registering payload %s (%s)", NameRepr(payload), NameRepr(flavour)
-                )
-                runner.register_payload(payload)
+        with self._queue_lock:
+            runner = self._runners.get(flavour)
+            if runner is None:
+                if self.running.is_set():
+                    raise RuntimeError(f"unknown runner {NameRepr(flavour)}") from None
+                self._runner_queues.setdefault(flavour, []).extend(payloads)
+                return
+        for payload in payloads:
+            self._logger.debug(
+                "registering payload %s (%s)", NameRepr(payload), NameRepr(flavour)
+            )
+            runner.register_payload(payload)
 
     def run_payload(self, payload, *, flavour: ModuleType):
         """
@@ -104,13 +107,17 @@ class MetaRunner(object):
     async def _launch_runners(self) -> List[asyncio.Task]:
         """Launch all runners inside the current `asyncio` event loop"""
         asyncio_loop = asyncio.get_event_loop()
-        self._runners = {}
+        runners: Dict[ModuleType, BaseRunner] = {}
         runner_tasks = []
         for runner_type in self.runner_types:
-            runner = self._runners[runner_type.flavour] = runner_type(asyncio_loop)
+            runner = runners[runner_type.flavour] = runner_type(asyncio_loop)
             runner_tasks.append(asyncio_loop.create_task(runner.run()))
-        for runner in self._runners.values():
+        for runner in runners.values():
             await runner.ready()
+        # publish the runners only once all of them accept payloads:
+        # until then, payloads registered by other threads are queued
+        with self._queue_lock:
+            self._runners = runners
         return runner_tasks
 
     async def _unqueue_payloads(self) -> None:
@@ -119,10 +126,10 @@ class MetaRunner(object):
         # This also provides checking that the queued flavours correspond to a runner.
         assert self.running.is_set(), "runners must be launched before unqueueing"
         # runners are started, so re-registering payloads does not queue them again
-        for flavour, queue in self._runner_queues.items():
+        with self._queue_lock:
+            queues, self._runner_queues = self._runner_queues, {}
+        for flavour, queue in queues.items():
             self.register_payload(*queue, flavour=flavour)
-            queue.clear()
-        self._runner_queues.clear()
 
     async def _aclose_runners(self, runner_tasks):
         for runner in self._runners.values():
